@@ -155,6 +155,30 @@ def run(ck):
 
     # b'. verifier-side zips of statement components with response components are preceded by a length equality test
     nz = extract_zip_sweep(ck, c, re.compile(r"sigma_protocols::.*SigmaProtocol>::extract_commit_message$"))
+    # keyed responses: when the statement and the response are MAPS joined by key, equal sizes do not make the join total.
+    # A response entry that is missing for a statement key must refuse (or the two key sets must be compared): a lookup that
+    # silently skips the index leaves that part of the statement unconstrained
+    nk = 0
+    for p0 in sorted(c.paths()):
+        if not re.search(r"sigma_protocols::.*SigmaProtocol>::extract_commit_message$", p0):
+            continue
+        for b in c.get_all(p0):
+            f = Fn(b)
+            gets = [(bi, t) for (bi, t) in f.calls(r"BTreeMap::<K, V, A>::get$|BTreeMap::<.*>::get$|HashMap::<.*>::get$")
+                    if ("arg", 3) in f.origins(t["args"][0], deep=True)]
+            if not gets:
+                continue
+            nk += 1
+            keyeq = [bi for (bi, t) in f.calls(r"Iterator::eq$|iter::Iterator::eq_by$|PartialEq::(eq|ne)$")
+                     if has_call_origin(f.origins(t["args"][0], deep=True) | (f.origins(t["args"][1], deep=True) if len(t["args"]) > 1 else set()), r"BTreeMap::<.*>::keys$|::keys$")
+                     and rules.enforcement(f, bi)["status"] in ("enforced", "propagated")]
+            for k, (bi, t) in enumerate(gets):
+                r = rules.enforcement(f, bi)
+                ok = r["status"] in ("enforced", "propagated") or any(f.dominates(kb, bi) for kb in keyeq)
+                ck.ob("ENF", f.path, "missing-response-entry-refuses#%d" % k, ok,
+                      "a response entry missing for a statement key refuses the proof" if ok else
+                      "the response map is joined with the statement by key and a missing entry is skipped silently (%s): with equal sizes but different keys a commitment of the statement is not checked at all" % r["status"], f.loc(bi))
+    ck.floor("ENF", "sigma protocols with keyed responses", nk, 1)
     ck.floor("CMP", "statement/response zips in extract_commit_message", nz, 8)
 
     enf_module_sweep(ck, crate("rs", CB), re.compile(r"concordium_base::sigma_protocols::"), 1, "sigma_protocols")
